@@ -124,7 +124,7 @@ var c04Base = []string{
 	"{% for kv in m %}{{ kv[0] }}={{ kv[1] }};{% endfor %}{{ m.size }}{{ dl | join }}{{ dl[0] }}{% if dl[1] == 's' %}S{% endif %}",
 	"{% yb %}in{{ x }}{% endyb %}{% for i in l limit: 2 %}{% cycle 'g': '1', '2', '3' %}{% endfor %}",
 	`a{% include "` + c04FailName + `" %}b`, // the error raised inside the included file names the INCLUDING template's path and line
-	`R{% include "` + c04SelfName + `" %}`, // 60 nested includes per render
+	`R{% include "` + c04SelfName + `" %}`,  // 60 nested includes per render
 	// thorough
 	"{% assign l = l | reverse %}{% for i in l %}{{ i }}{% endfor %}{% assign x = nil %}{{ x }}",
 	"{% for x in l %}{{ x }}{% endfor %}{{ x }}{{ forloop }}",
